@@ -97,6 +97,11 @@ func genOps(r *Rng, n int) []Op {
 				op.Limit = int64(r.PickInt(0, 1, 2, 3, 5, 100))
 				op.Offset = int64(r.PickInt(0, 0, 1, 2, 3, 7))
 			}
+			if r.Chance(1, 10) {
+				// signed numbers: the lexer's Number class takes a sign
+				op.Limit = int64(r.PickInt(-1, -3, 2, 0))
+				op.Offset = int64(r.PickInt(-1, -2, 0, 1))
+			}
 			if r.Chance(1, 6) {
 				// the ends of the number ranges: "no limit" idioms, the int32 default, sums that leave int64
 				big := []int64{math.MaxInt64, math.MaxInt64 - 1, math.MaxInt64 - 7, math.MaxInt32, math.MaxInt32 + 1, 1 << 32, 1 << 62}
@@ -257,8 +262,13 @@ func runHist(ops []Op) (*hist, error) {
 			h.coqOps = append(h.coqOps, GApp("OList", GZ(op.Limit), GZ(op.Offset)))
 			if e != nil {
 				h.coqObs = append(h.coqObs, GApp("RList", GNone))
-				h.fail("list-error", e.Error())
+				if op.Offset >= 0 {
+					h.fail("list-error", e.Error())
+				}
 				break
+			}
+			if op.Offset < 0 {
+				h.fail("list-negative-offset-accepted", out)
 			}
 			m := listRe.FindStringSubmatch(out)
 			if m == nil {
@@ -287,7 +297,12 @@ func runHist(ops []Op) (*hist, error) {
 				hi = lo + int(op.Limit)
 			}
 			want := all[lo:hi]
-			if int(total) != len(all) {
+			if op.Limit < 0 {
+				// a negative LIMIT: the code lists nothing and says so; the property says nothing about it (K compares with the model)
+				if int(total) != len(all) {
+					h.fail("list-total", fmt.Sprintf("total %d want %d", total, len(all)))
+				}
+			} else if int(total) != len(all) {
 				h.fail("list-total", fmt.Sprintf("total %d want %d", total, len(all)))
 			} else if strings.Join(got, "\n") != strings.Join(want, "\n") {
 				cls := "list-content"
@@ -419,7 +434,8 @@ func corpus() []Replay {
 	list := func(l, o int64) Op { return Op{Kind: "list", Limit: l, Offset: o} }
 	h1 := []Op{mk("pb"), mk("Pz"), mk("pa"), mk("zz"), list(0, 0),
 		list(math.MaxInt64, 1), list(math.MaxInt64, 0), list(math.MaxInt64-1, 2), list(math.MaxInt64, math.MaxInt64),
-		list(math.MaxInt32, math.MaxInt64), list(math.MaxInt32+1, 1), list(1<<62, 1<<62), list(2, math.MaxInt64-1), list(3, 1), list(1, 3), list(1, 4), list(1, 5)}
+		list(math.MaxInt32, math.MaxInt64), list(math.MaxInt32+1, 1), list(1<<62, 1<<62), list(2, math.MaxInt64-1), list(3, 1), list(1, 3), list(1, 4), list(1, 5),
+		list(2, -1), list(-1, 0), list(-1, 1), list(-2, -2), list(math.MinInt64, 0), list(0, math.MinInt64), list(math.MinInt64, math.MinInt64)}
 	h2 := []Op{mk("pb"), mk("pa"), mk("Pz"),
 		{Kind: "restartcfg", Cfg: []CfgPipe{{Name: "pa", From: "x=y", Valid: true}, {Name: "pb", From: "a=b", Valid: true}, {Name: "zz", Where: "msg contains \"err\"", Valid: true}}},
 		list(0, 0), {Kind: "describe", Name: "pa"}, {Kind: "describe", Name: "pb"}, {Kind: "describe", Name: "zz"}, {Kind: "describe", Name: "Pz"},
